@@ -126,7 +126,9 @@ fn spec_update(b: &Bundle, node: &EndpointID, rt: u128, now: u64) -> (bool, Opti
             match (c.block_type, c.data().clone()) {
                 (10, CanonicalData::HopCount(l, n)) if !done[0] => { c.set_data(CanonicalData::HopCount(l, n + 1)); done[0] = true; }
                 (10, _) if !done[0] => { done[0] = true; }
-                (7, CanonicalData::BundleAge(a)) if !done[1] => { c.set_data(CanonicalData::BundleAge((a as u128 + rt) as u64)); done[1] = true; }
+                (7, CanonicalData::BundleAge(a)) if !done[1] => { // age + residence time exactly; where that does not fit the 64-bit field (possible only under a lifetime of
+                // 2^64 ms or more, which only the API can build) the field holds its largest value — never a wrapped one
+                c.set_data(CanonicalData::BundleAge(u64::try_from((a as u128).saturating_add(rt)).unwrap_or(u64::MAX))); done[1] = true; }
                 (7, _) if !done[1] => { done[1] = true; }
                 (6, CanonicalData::PreviousNode(_)) if !done[2] => { c.set_data(CanonicalData::PreviousNode(node.clone())); done[2] = true; }
                 (6, _) if !done[2] => { done[2] = true; }
@@ -895,6 +897,9 @@ fn gen_c08(rng: &mut Rng, ctx: &mut Ctx, rep: &mut Report, emit: Emit) {
         let mut b = base(rng);
         let life = match rng.below(4) { 0 => 3_600_000, 1 => 0, _ => rng.u64b() };
         b.primary.lifetime = std::time::Duration::from_millis(life);
+        // lifetimes of 2^64 ms and more (only the API can build them): k * 2^64 ms + a small rest — what a narrowing
+        // conversion would make of them expires at once
+        if rng.chance(1, 15) { let ms: u128 = ((1 + rng.below(900)) as u128) << 64 | match rng.below(4) { 0 => 0, 1 => 384, 2 => 3_600_000, _ => rng.below(1 << 40) } as u128; b.primary.lifetime = std::time::Duration::new((ms / 1000) as u64, ((ms % 1000) as u32) * 1_000_000); }
         let ts = match rng.below(4) { 0 => 0, _ => bv(rng, u64::MAX - life) };
         b.primary.creation_timestamp = CreationTimestamp::with_time_and_seq(ts, rng.below(5));
         let mut rt: u128 = bv(rng, life) as u128;
@@ -908,6 +913,9 @@ fn gen_c08(rng: &mut Rng, ctx: &mut Ctx, rep: &mut Report, emit: Emit) {
         if rng.chance(1, 2) { let l = *rng.pick(&[0u8, 1, 32, 254, 255]); let c = match rng.below(4) { 0 => l, 1 => l.wrapping_sub(1), 2 => 255, _ => rng.below(40) as u8 }; b.canonicals.insert(0, new_canonical_block(10, 9, 0, CanonicalData::HopCount(l, c))); }
         if rng.chance(1, 2) { b.canonicals.insert(0, new_canonical_block(6, 10, 0, CanonicalData::PreviousNode(gen_eid_wf(rng)))); }
         if rng.chance(1, 20) { b.canonicals.insert(0, new_canonical_block(*rng.pick(&[6u64, 7, 10]), 11, 0, CanonicalData::Unknown(vec![1]))); }
+        // a block of the same type that fails its own validation (decoding error marker, previous node naming a
+        // malformed endpoint) in front of the usable one: the update works on the first USABLE block of each type
+        if rng.chance(1, 12) { let t = *rng.pick(&[6u64, 7, 10]); let d = if t == 6 && rng.chance(1, 2) { CanonicalData::PreviousNode(EndpointID::Dtn(1, dtn_address(b"old").unwrap())) } else { CanonicalData::DecodingError }; b.canonicals.insert(0, new_canonical_block(t, 12, 0, d)); }
         let now = bv(rng, ts.wrapping_add(life)).min(u64::MAX - MS2K);
         let n = if rng.chance(1, 4) { gen_eid_wf(rng) } else { node.clone() };
         emit(ctx, rep, format!("upd {} {} {} {}", show_eid(&n), rt, now, show_bundle(&b)));
